@@ -35,7 +35,8 @@ Corollary C08_structures :
               (p_opt p = true \/ null_admitting (p_type p) = true) /\ is_coll (cs_of mm (p_type p)) = false)
           /\ (m_ignore m = true <->
               p_opt p = true /\ null_admitting (p_type p) = false /\ is_coll (cs_of mm (p_type p)) = false)
-          /\ exists k rhs, c_ctor c = Some k /\ In (m_ident m, rhs) (k_assigns k) /\ In rhs (k_params k)).
+          /\ exists k rhs, c_ctor c = Some k /\ In (m_ident m, rhs) (k_assigns k) /\ In rhs (k_params k)
+                           /\ ~ In rhs cs_reserved).
 Proof. exact (proj1 (proj2 C08_spec)). Qed.
 
 (* the only structures without a class of their own: "_"-prefixed and used in no type position (pinned exception) *)
@@ -69,7 +70,7 @@ Proof. exact (proj1 (proj2 (proj2 C08_spec))). Qed.
    [LSPResponse], every [Direction] on the class is the metamodel's, and LSPMethods holds the method string *)
 Corollary C08_requests :
   forall r, In r (requests mm) ->
-  exists n c resp rc, msg_name (r_typename r) "Request" = Some n
+  exists n c resp rc, msg_name files (r_typename r) "Request" (r_method r) = Some n
     /\ In (FClass c) files /\ c_name c = n /\ c_request c = Some (r_method r, resp)
     /\ In (FClass rc) files /\ c_name rc = resp /\ c_response rc = Some n
     /\ (c_dirs c <> [] /\ forall d, In d (c_dirs c) -> d = r_dir r)
@@ -78,7 +79,7 @@ Proof. exact (proj1 (proj2 (proj2 (proj2 C08_spec)))). Qed.
 
 Corollary C08_notifications :
   forall x, In x (notifications mm) ->
-  exists n c, msg_name (n_typename x) "Notification" = Some n
+  exists n c, msg_name files (n_typename x) "Notification" (n_method x) = Some n
     /\ In (FClass c) files /\ c_name c = n
     /\ (c_dirs c <> [] /\ forall d, In d (c_dirs c) -> d = n_dir x)
     /\ exists const, In (const, n_method x) (methods_tbl files).
@@ -89,6 +90,16 @@ Corollary C08_catalogue :
   forall const v, In (const, v) (methods_tbl files) ->
   (exists r, In r (requests mm) /\ r_method r = v) \/ (exists x, In x (notifications mm) /\ n_method x = v).
 Proof. exact (proj2 (proj2 (proj2 (proj2 (proj2 C08_spec))))). Qed.
+
+(* what a match against an anonymous literal / a generated union class means (generic, instantiated at the current files) *)
+Corollary C08_literal_meaning : forall ms a, cs_match files (CsLitOf ms) a = true ->
+  exists v c, a = CsN v /\ In (FClass c) files /\ c_name c = v /\ c_contract c = true
+    /\ NoDup (map m_wire (c_members c))
+    /\ (forall k, In k (map m_wire (c_members c)) -> In k (lit_names ms))
+    /\ (forall k t nl ig, In (k, t, nl, ig) ms ->
+        exists m, In m (c_members c) /\ m_wire m = k /\ cs_match files t (m_type m) = true
+                  /\ m_nullable m = nl /\ m_ignore m = ig /\ lit_assignable c m = true).
+Proof. exact (cs_match_lit files). Qed.
 
 (* ---------------------------------------------------------------------------------------------- non-vacuity *)
 (* the quantifiers range over a large, non-degenerate population (lower bounds, so a harmless metamodel update keeps them) *)
@@ -110,7 +121,7 @@ Proof. vm_compute. repeat split. Qed.
 (* the statement instantiated at the first notification and the first request of the metamodel *)
 Example C08_first_notification :
   match notifications mm with
-  | x :: _ => exists n c, msg_name (n_typename x) "Notification" = Some n /\ In (FClass c) files /\ c_name c = n
+  | x :: _ => exists n c, msg_name files (n_typename x) "Notification" (n_method x) = Some n /\ In (FClass c) files /\ c_name c = n
                           /\ (c_dirs c <> [] /\ forall d, In d (c_dirs c) -> d = n_dir x)
                           /\ exists const, In (const, n_method x) (methods_tbl files)
   | [] => False end.
@@ -123,7 +134,11 @@ Example C08_cs_of_examples :
   /\ cs_of mm (TMap (TBase BDocumentUri) (TArr (TBase BInteger))) = CsG "ImmutableDictionary" [CsN "Uri"; CsG "ImmutableArray" [CsN "int"]]
   /\ cs_of mm (TOr [TBase BInteger; TBase BString; TBase BNull]) = CsG "OrType" [CsN "int"; CsN "string"]
   /\ cs_of mm (TTuple [TBase BUInteger; TBase BUInteger]) = CsTup [CsN "long"; CsN "long"]
-  /\ cs_of mm (TLit []) = CsN "LSPObject".
+  /\ cs_of mm (TLit []) = CsN "LSPObject"
+  (* an anonymous literal: any generated record with exactly these members (wire name, type, nullable, Ignore) *)
+  /\ cs_of mm (TArr (TLit [("a", TBase BString, false); ("b", TBase BUInteger, true); ("c", TOr [TBase BURI; TBase BNull], false)]))
+     = CsG "ImmutableArray" [CsLitOf [("a", CsN "string", false, false); ("b", CsN "long", true, true); ("c", CsN "Uri", true, false)]]
+  /\ cs_of mm (TOr [TBase BString; TLit [("k", TBase BBoolean, false)]]) = CsG "OrType" [CsN "string"; CsLitOf [("k", CsN "bool", false, false)]].
 Proof. repeat split; reflexivity. Qed.
 
 Print Assumptions C08_generated.
@@ -131,6 +146,7 @@ Print Assumptions C08_spec.
 Print Assumptions C08_structures.
 Print Assumptions C08_skipped_only_private_bases.
 Print Assumptions C08_types_exact.
+Print Assumptions C08_literal_meaning.
 Print Assumptions C08_enumerations.
 Print Assumptions C08_requests.
 Print Assumptions C08_notifications.
